@@ -13,6 +13,10 @@ def node_bytes(n, chosen, probe_cp, level, last):
     body = head + ('@import "n%d.css";\n' % (level + 1) if not last else "") + 'a { content: "%s" }\n' % chr(probe_cp)
     if n["text"]:
         return body                      # delivered as text: nothing to decode
+    if n["mark"] == "bom" and n["http"] != "none":
+        # the transport charset wins, so the signature decodes to three junk characters in front of the first statement: a
+        # sacrificial rule takes that damage (C04) and leaves the probe rule intact
+        body = "x { left: 0 }\n" + body
     data = body.encode(chosen)
     if n["mark"] == "bom":
         data = BOM + data
@@ -26,15 +30,25 @@ def run_edit(row):
     """parse root + one import, set the encoding of root or child, add a new @import to that sheet"""
     sheet, files = run_chain(row, want_sheet=True)
     new, expnew = row["newnode"], row["expnew"]
-    files["m.css"] = (None if new["http"] == "none" else new["http"], node_bytes(new, expnew, PROBE[expnew], 9, True))
+    ascii_only = row["how"].endswith("-ascii")       # a target that decodes under any candidate: only the reported encoding differs
+    files["m.css"] = (None if new["http"] == "none" else new["http"], node_bytes(new, expnew, 120 if ascii_only else PROBE[expnew], 9, True))
     target = sheet if row["target"] == "root" else [r for r in sheet.cssRules if r.type == r.IMPORT_RULE][0].styleSheet
     if row["how"] == "settext":
         # replace the whole text of the sheet: new @charset rule and the new @import
         target.cssText = ('@charset "%s";\n' % row["newenc"] if row["newenc"] != "none" else "") + '@import "m.css";\nz { left: 0 }'
     else:
         target.encoding = None if row["newenc"] == "none" else row["newenc"]
-        if row["how"] == "text":
+        if row["how"] == "rejected-charset":
+            head = target.cssRules[0] if target.cssRules.length else None
+            if head is not None and head.type == head.CHARSET_RULE:
+                try:
+                    head.encoding = "klingon"         # no such encoding: rejected, the sheet keeps the one it has
+                except Exception:
+                    pass
             target.add('@import "m.css";')
+        elif row["how"].startswith("text"):
+            target.add({"text": '@import "m.css";', "text-upper-ascii": '@IMPORT "m.css";', "text-ws-ascii": '\n @import "m.css";',
+                        "text-escaped-ascii": '@i\\mport "m.css";'}[row["how"]])
         else:
             target.add(cssutils.css.CSSImportRule(href="m.css", parentStyleSheet=target))
     imp = [r for r in target.cssRules if r.type == r.IMPORT_RULE and r.href == "m.css"][0]
@@ -43,6 +57,8 @@ def run_edit(row):
     for sr in child.cssRules:
         if sr.type == sr.STYLE_RULE:
             probe = [ord(c) for c in sr.style.getPropertyValue("content").strip('"')]
+    if ascii_only and probe == [120]:
+        probe = [PROBE[expnew]]          # the ASCII stand-in came back intact
     return {"out": "ok", "newfound": bool(imp.hrefFound), "newenc": child.encoding, "newprobe": probe}
 
 
